@@ -4,6 +4,7 @@ import verif as V
 
 PROP = "C17"
 PROPS = "props/C17.v"
+PROPS_B = "props/C17b.v"    # integration with the lexer model of C09: query parse errors (coq/integ/QueryErrPos.v)
 DEPS = ["c17/Run.v"]
 
 # canonical keys of the case families known to fail on the unchanged tree (the lead records them in
@@ -13,12 +14,16 @@ FAMILY_KEY = {
     "cr-window:seek": 'cr-window seek docsize=100 ndocs=200 term=CR err={"b": tru }',
     "cr-window:pipe": 'cr-window pipe docsize=100 ndocs=200 term=CR err={"b": tru } reads=full',
     "stream-offset": 'stream-offset seek input={"b": tru }',
+    "yaml-char-index": 'yaml-char-index seek input="\\u4e16\\u754c: 1\\n  x: 2\\n"',
 }
 WHAT = {
     "pipe-reset": "non-seekable input: the window trimming dropped read-ahead that contains the offending byte "
                   "(wrong line and/or empty excerpt) — D7, repaired by e216f69, reintroduced?",
     "cr-window": "input longer than the window with lone-CR line terminators: the bytes before the window are counted "
                  "with '\\n' only, getLineByOffset counts CR too (line number too small)",
+    "yaml-char-index": "--yaml-input: go-yaml's ParserError/UnmarshalError.Index counts characters, cli/error.go uses "
+                       "Index+1 as a byte offset: with multi-byte text before the error the caret (and possibly the line) "
+                       "is too early",
     "stream-offset": "--stream: the offset of a SyntaxError returned through dec.Token() is not the absolute 1-based "
                      "offset of the offending byte, cli/inputs.go uses it as such (wrong caret, often wrong line)",
 }
@@ -61,6 +66,11 @@ def run(tier, seed):
         "(the lexer is modelled by C08/C09; here: implementation-side oracle on generated bad queries)",
     ]
     proved = c.prove(PROPS)
+    # C17b needs the lexer model of C09, which imports the grammar tables regenerated from the current sources
+    ok, log = V.regen(["grammar", "yytables"])
+    if not ok:
+        c.notes.append("translator failed: " + V.tail(log, 10))
+    proved = c.prove(PROPS_B) and proved
     exe_h, hlog = V.build_harness("c17")
     stats = {}
     if exe_h is None:
@@ -84,6 +94,7 @@ def run(tier, seed):
             name = byline.get(line, short(line))
             canon_failing.add(name)
             fam = ("cr-window" if name.startswith("cr-window") else "stream-offset" if name.startswith("stream-offset")
+                   else "yaml-char-index" if name.startswith("yaml-char-index")
                    else "pipe-reset" if "pipe-reset" in name else None)
             c.failing_input(WHAT.get(fam, "reported position violates the property on a canonical case"), name,
                             "spec verdict %s on the canonical input; stderr is in the case line: %s" % (verdict, short(line, 1200)))
@@ -102,11 +113,11 @@ def run(tier, seed):
         for line, verdict in smism:
             fam = None
             m = re.match(r"^\(bad ([\w-]+)", verdict)
-            if m and m.group(1) in ("stream-offset", "cr-window"):
+            if m and m.group(1) in ("stream-offset", "cr-window", "yaml-char-index"):
                 fam = m.group(1)
             key = None
-            if fam == "stream-offset":
-                key = FAMILY_KEY["stream-offset"]
+            if fam in ("stream-offset", "yaml-char-index"):
+                key = FAMILY_KEY[fam]
             elif fam == "cr-window":
                 key = FAMILY_KEY.get("cr-window:" + ("pipe" if transport_of(line) == "pipe" else "seek"))
             if key and key in canon_failing:
